@@ -119,6 +119,10 @@ def main():
                 continue
             except core.DriverError:
                 raise
+            except core.om.AnalysisError:
+                # a solver of the framework did not converge: outside the model, discarded and counted
+                st.discarded += 1
+                continue
             except Exception as ex:
                 # the real code raised on a configuration inside the property's quantifier
                 import traceback as _tb
